@@ -182,7 +182,7 @@ def bodyScope (c : Cfg) (t : Body) : Scope :=
   { path := [PathEl.fn (renderName "body".toList)], kind := .body, tag := 0, inDef := false, toplevel := true,
     frames := [fr], body := t,
     mlocals := if fr.useLocals then some (sortNames (dedup fr.ids.argDecl)) else none,
-    binds := declsThrough t ++ pageArgsOf t ++ closOf true t ++ topsOf true t }
+    binds := declsThrough t ++ closOf true t ++ topsOf true t }
 
 /-- every generated function of the template with its `_Identifiers` and closure chain -/
 def allScopes (c : Cfg) (t : Body) : List Scope :=
